@@ -15,10 +15,10 @@ func init() {
 		DesignRef: "DESIGN.md §5 C47",
 		Level: "Decides that the target table is only accessed under its mutex and that the three mutexes are always taken in the order manager, provider, targets; that every provider update is applied to all subscriptions and followed by a non-blocking raise of the send trigger, that a config reload raises it too; " +
 			"that the sender sends, in the very statement that offers to the consumer, a snapshot computed at that moment (never a value kept from an earlier attempt), that when the consumer is busy it re-arms the trigger so that the next cycle sends a newer snapshot, and that an empty target group removes its source while empty subscriptions are still reported.",
-		Note:     "Trusted: go/packages, go/types, go/cfg; receiver-insensitive lock identification; rule tables in checker/c47.go.",
-		Covers:   "Manager.sender, updater, ApplyConfig (trigger), updateGroup, allGroups, cleaner; lockset of Manager.targets; lock order mtx/Provider.mu/targetsMtx.",
-		NotCover: "timing (back-off), convergence under continuous updates, what the providers report.",
-		Run:      runC47,
+		Note:           "Trusted: go/packages, go/types, go/cfg; receiver-insensitive lock identification; rule tables in checker/c47.go.",
+		Covers:         "Manager.sender, updater, ApplyConfig (trigger), updateGroup, allGroups, cleaner; lockset of Manager.targets; lock order mtx/Provider.mu/targetsMtx.",
+		NotCover:       "timing (back-off), convergence under continuous updates, what the providers report.",
+		Run:            runC47,
 		MinObligations: 16,
 	})
 }
